@@ -42,8 +42,8 @@ def case_label(v):
 
 def case_combos(c):
     names = list(c.cases)
-    return [",".join(f"{k}={case_label(v)}" for k, v in zip(names, vals))
-            for vals in itertools.product(*[c.cases[n] for n in names])]
+    return [lab for lab in (",".join(f"{k}={case_label(v)}" for k, v in zip(names, vals))
+                            for vals in itertools.product(*[c.cases[n] for n in names])) if lab not in c.skip_cases]
 
 
 class SpecFn:
@@ -142,6 +142,7 @@ class Verifier(Engine, ExprMixin, StmtMixin, CallMixin):
         self.bv_u1 = getattr(c, "bv_u1", False)
         self.no_lemma_axioms = getattr(c, "no_lemma_axioms", False)
         self.no_unfold = getattr(c, "no_unfold", False)
+        self.float_err = getattr(c, "float_err", False)
         st = State()
         # parameters
         a = fi.node.args
@@ -308,6 +309,8 @@ class Verifier(Engine, ExprMixin, StmtMixin, CallMixin):
             for case in combos:
                 if flt and flt != ",".join(f"{k}={case_label(v)}" for k, v in case.items()) and \
                         (getattr(self, "case_filter", None) or flt not in ",".join(f"{k}={case_label(v)}" for k, v in case.items())):
+                    continue
+                if ",".join(f"{k}={case_label(v)}" for k, v in case.items()) in c.skip_cases:
                     continue
                 self.verify_case(c, case)
         except OutOfSubset as exc:
